@@ -353,6 +353,11 @@ Fixpoint ets_fuel (fuel : nat) (term : str) : str :=
   else t.
 Definition ets (term : str) : str := ets_fuel (S (length term)) term.
 
+(* encode_cleaned_term (commit 16f77b9) followed by decode_any: a term the line loaders have already cleaned is
+   interned verbatim; only a term of the shape <<...>> is parsed again by encode_term_star *)
+Definition ect (term : str) : str :=
+  if starts_with sLTLT term && ends_with sGTGT term then ets term else term.
+
 (* ---- datasets ---------------------------------------------------------------------------------- *)
 Definition quad := (str * str * str * option str)%type.     (* graph None = default graph *)
 Definition qd_s (q : quad) := fst (fst (fst q)).
@@ -408,7 +413,7 @@ Definition nq_load_line (raw : str) : list quad :=
   if is_comment_or_empty line then []
   else if ends_with [cDOT] line then
     match nq_parse_line (trim (removelast line)) with
-    | Some (s, p, o, g) => [(ets s, ets p, ets o, g)]     (* add_quad_parts: the graph name is encoded verbatim *)
+    | Some (s, p, o, g) => [(ect s, ect p, ect o, g)]     (* the graph name is encoded verbatim *)
     | None => []
     end
   else [].
@@ -429,7 +434,7 @@ Definition nt_load_line (raw : str) : list quad :=
   if is_comment_or_empty line then []
   else if ends_with [cDOT] line then
     match nt_parse_line (trim (removelast line)) with
-    | Some (s, p, o) => [(ets s, ets p, ets o, None)]
+    | Some (s, p, o) => [(ect s, ect p, ect o, None)]
     | None => []
     end
   else [].
